@@ -105,6 +105,7 @@ class Interp:
         self.decl_types: dict[str, str] = {}
         self.statics_nonconst: list[str] = []
         self.narrowings: list[str] = []
+        self.declared_sizes: dict[str, int] = {}
         self.steps = 0
         self.max_terms = 0
         self.term_budget = 400000
@@ -202,6 +203,13 @@ class Interp:
             self.scopes.append({})
             self.run(st[1])
             self.scopes.pop()
+        elif k == "alias":
+            _, name, src, size, line = st
+            arr = self.lookup(src)
+            if not isinstance(arr, Arr):
+                raise KsymError(f"carray of unknown parameter {src}")
+            self.declared_sizes[name] = size
+            self.declare(name, arr, line)
         else:
             raise KsymError(f"unknown statement {k}")
 
